@@ -90,6 +90,8 @@ impl StateCheck for C05 {
         }
         // 2. the extra components are exactly the reference completion (auxiliaries are C06's subject)
         let mut expected: BTreeMap<(String, i32), Vec<f64>> = BTreeMap::new();
+        let mut exp_tol: BTreeMap<(String, i32), Vec<f64>> = BTreeMap::new();
+        let mut optional: std::collections::BTreeSet<(String, i32)> = std::collections::BTreeSet::new();
         for car in ["EAMBIENTE", "TERMOSOLAR"] {
             let ids: std::collections::BTreeSet<i32> = decls.iter().filter(|d| d.kind == Kind::Used && d.tag == car).map(|d| d.id).collect();
             for id in ids {
@@ -106,8 +108,14 @@ impl StateCheck for C05 {
                 pr.resize(us.len().max(pr.len()), 0.0);
                 us.resize(pr.len(), 0.0);
                 let add: Vec<f64> = us.iter().zip(&pr).map(|(u, p)| (u - p).max(0.0)).collect();
-                // below f32 rounding noise of the sums there is nothing to complete
-                if add.iter().any(|x| *x > 1e-6 * maxv.max(1.0)) {
+                // below the f32 rounding noise of the sums OF THAT STEP there is nothing to complete; in the band around the
+                // noise both outcomes are admitted
+                let noise: Vec<f64> = us.iter().zip(&pr).map(|(u, p)| 2e-6 * (u + p)).collect();
+                if !add.iter().zip(&noise).any(|(x, n)| *x > 4.0 * n + 1e-9) && add.iter().zip(&noise).any(|(x, n)| *x > 0.0 && *x > n / 4.0) {
+                    optional.insert((car.to_string(), id));
+                }
+                exp_tol.insert((car.to_string(), id), noise.iter().map(|n| 1e-5 + 4.0 * n).collect());
+                if add.iter().zip(&noise).any(|(x, n)| *x > 4.0 * n + 1e-9) {
                     expected.insert((car.to_string(), id), add);
                     out.nontrivial = true;
                     if pr.iter().any(|x| *x > 0.0) {
@@ -148,12 +156,12 @@ impl StateCheck for C05 {
         out.compared += 1;
         for (key, e) in &expected {
             match extras.get(key) {
-                Some(g) if g.len() == e.len() && g.iter().zip(e).all(|(a, b)| (a - b).abs() <= ts) => {}
+                Some(g) if g.len() == e.len() && g.iter().zip(e).enumerate().all(|(i, (a, b))| (a - b).abs() <= exp_tol.get(key).and_then(|t| t.get(i)).copied().unwrap_or(ts)) => {}
                 g => out.viol("completion_is_exact", &[], "", format!("{key:?}: added {g:?}"), format!("max(0, use - declared production of that system) = {e:?}")),
             }
         }
         for (key, g) in &extras {
-            if !expected.contains_key(key) {
+            if !expected.contains_key(key) && !optional.contains(key) {
                 out.viol("completion_is_exact", &[], "", format!("{key:?}: added {g:?}"), "nothing to add for this system");
             }
         }
@@ -193,6 +201,23 @@ impl StateCheck for C05 {
 
 pub fn env_alphabet(t: usize) -> Vec<Letter> {
     env_alphabet_v(t, false)
+}
+
+/// whole systems as composite letters, so that several complete systems interact within the depth bound: a use with its
+/// production declared in two lines (systems 1, 2 and 5, both carriers), and a system whose shortfall at one step is
+/// 0.01 kWh beside 1 000 000 kWh at another (annual sums in f32 cannot see it, the per-step rule must)
+pub fn env_systems() -> Vec<Letter> {
+    let mut al = vec![];
+    for car in ["EAMBIENTE", "TERMOSOLAR"] {
+        for (id, us, p1, p2) in [(1, k(&[10, 4]), k(&[2, 1]), k(&[3, 0])), (2, k(&[10, 10]), k(&[1, 1]), k(&[1, 4])), (5, k(&[6, 0]), k(&[1, 0]), k(&[0, 2]))] {
+            al.push(Letter::many(vec![u(Some(id), "ACS", car, &us), p(Some(id), car, &p1), p(Some(id), car, &p2)]));
+        }
+        al.push(Letter::many(vec![u(Some(3), "ACS", car, &[100_000_000, 1]), p(Some(3), car, &[100_000_000, 0])]));
+        al.push(Letter::many(vec![u(Some(4), "CAL", car, &[5, 100_000_000]), p(Some(4), car, &[0, 100_000_000])]));
+        al.push(Letter::one(u(Some(1), "CAL", car, &k(&[1, 1]))));
+    }
+    al.push(Letter::one(u(Some(6), "CAL", "GASNATURAL", &k(&[2, 2]))));
+    al
 }
 
 /// `small`: values of hundredths of kWh, so that shortfalls of 0.01 kWh and less occur
@@ -267,6 +292,7 @@ pub fn run(ctx: &Ctx) -> i32 {
         let n = if ctx.quick() { 14 } else { 16 };
         explore(ctx, &format!("COMBO: complete 12-step buildings, {n} subsystems absent/present"), Layered { slots: alpha::combo_slots(n), bases: alpha::bases(false) }, C05, shared.clone());
     }
+    explore(ctx, "ENV systems: complete systems (use + production in two lines; 0.01 kWh beside 1e6 kWh) as letters, depth<=4", Wide { alphabet: env_systems(), bases: alpha::bases(false), max_add: if ctx.quick() { 4 } else { 6 }, repeat: false }, C05, shared.clone());
     explore(ctx, "seeded: shipped files + <=2 ENV lines (12 steps)", Wide { alphabet: alpha::seeded_letters(), bases: alpha::shipped_bases(), max_add: if ctx.quick() { 1 } else { 2 }, repeat: false }, C05, shared.clone());
     finish(
         ctx,
